@@ -246,27 +246,44 @@ func ruleCancelExactID(c *chk.Ctx) {
 			if !invoked {
 				return
 			}
-			// reached from an exported entry point with an id argument?
-			key := c.P.Canon(lk.Index)
-			prm, isParam := key.(*ssa.Parameter)
-			entry := ir.Root(f)
-			if isParam {
-				entry = prm.Parent()
-			}
-			if entry.Parent() != nil || !ir.Exported(entry) || ir.RecvNamed(entry) != c.M.Server {
-				if !isParam {
-					// a cancellation keyed by something computed: is it inside an exported method's region?
-					for _, g := range pkgFuncs(c, c.M.Pkg) {
-						if g.Parent() == nil && ir.Exported(g) && ir.RecvNamed(g) == c.M.Server && c.P.InExt(g, f) && len(c.P.Ext(g)) < 12 {
-							n++
-							c.Fail("PROV.cancel", g, "cancellation looks up exactly the given id", lk.Pos(), "the cancel entry point looks up a key other than the id it was given (a derived or re-quoted form): an unknown or finished id could cancel a different call that is in flight")
+			// reached from an exported entry point with an id argument? The key is followed through
+			// the parameters of private helpers to every place it comes from.
+			var judge func(key ssa.Value, fn *ssa.Function, depth int)
+			judge = func(key ssa.Value, fn *ssa.Function, depth int) {
+				key = ir.NormCell(key)
+				prm, isParam := key.(*ssa.Parameter)
+				if isParam {
+					g := prm.Parent()
+					if g.Parent() == nil && ir.Exported(g) && ir.RecvNamed(g) == c.M.Server {
+						n++
+						c.Pass("PROV.cancel", g, "cancellation looks up exactly the given id", lk.Pos(), "the in-flight table is consulted with the method's own id argument, unmodified")
+						return
+					}
+					if depth >= 3 || ir.Exported(g) || c.P.UsedAsValue(g) {
+						return
+					}
+					idx := -1
+					for i, q := range g.Params {
+						if q == prm {
+							idx = i
 						}
 					}
+					for _, site := range c.P.Callers(g) {
+						if args := site.Instr.Common().Args; idx >= 0 && idx < len(args) {
+							judge(args[idx], site.Caller, depth+1)
+						}
+					}
+					return
 				}
-				return
+				// a cancellation keyed by something computed: is it inside an exported method's region?
+				for _, g := range pkgFuncs(c, c.M.Pkg) {
+					if g.Parent() == nil && ir.Exported(g) && ir.RecvNamed(g) == c.M.Server && (g == fn || c.P.InExt(g, fn)) && len(c.P.Ext(g)) < 12 {
+						n++
+						c.Fail("PROV.cancel", g, "cancellation looks up exactly the given id", lk.Pos(), "the cancel entry point looks up a key other than the id it was given (a derived or re-quoted form): an unknown or finished id could cancel a different call that is in flight")
+					}
+				}
 			}
-			n++
-			c.Pass("PROV.cancel", entry, "cancellation looks up exactly the given id", lk.Pos(), "the in-flight table is consulted with the method's own id argument, unmodified")
+			judge(lk.Index, f, 0)
 		})
 	}
 	if n == 0 {
@@ -1622,7 +1639,7 @@ func rulePendingTablesNeverReplaced(c *chk.Ctx, fields ...*types.Var) {
 			fa, _ := st.Addr.(*ssa.FieldAddr)
 			fresh := false
 			if fa != nil {
-				_, fresh = c.P.Canon(fa.X).(*ssa.Alloc)
+				fresh = freshOwner(c, fa.X)
 			}
 			c.Check(fresh, "WHO.tables", st.Parent(), "table "+fv.Name()+" assigned only at construction", st.Pos(), "the table is stored into a freshly allocated owner", "the table of pending responses "+fv.Name()+" is replaced on a live owner: entries still pending are orphaned — their waiters find no entry to complete and their callers never return")
 		}
